@@ -29,6 +29,8 @@ func runC03(r *engine.Run) {
 	r.Rule("DOM-mergeall", "in mergeChanges every iteration of the loop over the child's changes passes insertNode (only an error return leaves the loop early): no change is skipped")
 	r.Rule("LOCK-mpt", "see C16: root, the stores' maps and level links and the collector's maps are accessed only with their owner's mutex held in the required mode (a writer under the read lock, or on a root read outside the lock, loses another writer's update)")
 	r.Rule("ORDER-critical", "see C16: Insert, Delete, MergeChanges and MergeDB are one critical section each, from the first read of the root to its last update")
+	r.Rule("DOM-samekey", "see C05: an unchanged re-write is not reported to the change collector (it would file the still-live node in the child's delete set, and the merge removes it from the parent)")
+	r.Rule("CLONE-deep", "see C07: Clone() of every node type is a deep copy (the codec round trip), never a value that shares path/key/value memory with the receiver - FRESH-node treats Clone() results as fresh, and an in-place append onto a shallow copy writes into the store's object")
 	r.NotDec = append(r.NotDec, "equality of parent and child views after arbitrary histories")
 	whoPrev(r)
 	domMerge(r)
@@ -40,6 +42,8 @@ func runC03(r *engine.Run) {
 	whoTombstones(r, "WHO-tombstones")
 	domMergeAll(r, "DOM-mergeall")
 	mptLockDiscipline(r)
+	domSameKey(r, "DOM-samekey")
+	cloneDeep(r)
 }
 
 func whoPrev(r *engine.Run) {
@@ -227,7 +231,7 @@ func domMerge(r *engine.Run) {
 				switch sc.Name() {
 				case "insertNode", "deleteNode", "setRoot":
 				default:
-					if !isNodeInstaller(r, c) {
+					if !isNodeInstaller(r, c) && !callsInstaller(r, sc) {
 						return
 					}
 				}
@@ -509,6 +513,26 @@ func domMergeAll(r *engine.Run, rule string) {
 			ins = c
 		}
 	})
+	if ins == nil {
+		// the replay loop extracted into a helper of the trie that mergeChanges calls
+		var helper *ssa.Function
+		engine.Instrs(f, func(in ssa.Instruction) {
+			if c, ok := in.(*ssa.Call); ok {
+				if g := c.Call.StaticCallee(); g != nil && g != f && recvNamed(g) == "MerklePatriciaTrie" && callsInstaller(r, g) && !isNodeInstaller(r, c) {
+					helper = g
+				}
+			}
+		})
+		if helper != nil {
+			r.Touch(helper)
+			f = helper
+			engine.Instrs(f, func(in ssa.Instruction) {
+				if c, ok := in.(*ssa.Call); ok && isNodeInstaller(r, c) && inLoopBody(c.Block()) {
+					ins = c
+				}
+			})
+		}
+	}
 	if ins == nil {
 		r.Fail(rule, fn(f)+"|replays every change", r.P.Pos(f.Pos()), "mergeChanges no longer replays the child's changes with insertNode inside a loop")
 		return
